@@ -23,6 +23,12 @@ r = subprocess.run(['git', '-C', '/repo', 'apply', patch])
 if r.returncode != 0:
     print('patch does not apply')
     sys.exit(2)
+import shutil
+saved = {}
+for c in checks:
+    ev = os.path.join(VERIF, 'evidence', c + '.json')
+    if os.path.exists(ev):
+        saved[ev] = open(ev, 'rb').read()
 try:
     for c in checks:
         p = subprocess.run([os.path.join(VERIF, 'check'), c, '--tier', tier], cwd=VERIF, stdout=subprocess.PIPE, stderr=subprocess.STDOUT)
@@ -31,6 +37,9 @@ try:
         for l in lines[:8]:
             print('   ', l[:300])
 finally:
+    # the evidence files describe the unchanged tree: put them back
+    for ev, data in saved.items():
+        open(ev, 'wb').write(data)
     subprocess.run(['git', '-C', '/repo', 'checkout', '--', '.'])
     # regenerate Gen files and rebuild against the restored tree
     subprocess.run([sys.executable, os.path.join(VERIF, 'gen', 's4gen.py')], stdout=subprocess.DEVNULL)
